@@ -22,6 +22,9 @@ Proof.
   intros H. inversion H; subst. eapply scan_decimal_nonneg; [|exact E]. lia.
 Qed.
 
+Lemma skipn_le {A} k (q : list A) : (length (skipn k q) <= length q)%nat.
+Proof. rewrite skipn_length. lia. Qed.
+
 Section Main.
 Variable is_word_char : Z -> bool.
 Variable to_lower : Z -> Z.
@@ -171,6 +174,7 @@ Definition gadv (r : pr (option rnode * gvars * list Z)) (n : nat) : Prop :=
 Ltac gfin := cbn [gadv badv padv padv0 pbind length node_ok] in *; unfold fresh_group;
   repeat match goal with |- _ /\ _ => split end; try assumption; try reflexivity; try (intros; discriminate); try lia; auto.
 
+Ltac csplit := repeat match goal with |- _ /\ _ => split end.
 Ltac plia := unfold padv, padv0 in *; cbn [length] in *; lia.
 
 Local Notation group_name := (group_name is_word_char).
@@ -308,6 +312,376 @@ Proof.
   pose proof (tl_len q) as Tq.
   destruct (negb (is_nil nm) && hd_is q 41); [|exact W].
   destruct (ct_name tb nm) as [g|]; [|plia]. split; [lia | apply ref_node_good].
+Qed.
+
+(* ---------------------------------------------------------------- the state of scanRegex *)
+Definition kids_good (x : rnode) : Prop := Forall good (n_kids x).
+Definition alt_ok (a : rnode) : Prop := kids_good a /\ n_t a = T_Alternate.
+Definition concat_ok (c : rnode) : Prop := kids_good c /\ n_t c = T_Concatenate.
+Definition group_ok (g : rnode) : Prop := kids_good g /\ group_t (n_t g) = true.
+Definition frame_ok (f : rnode * rnode * rnode) : Prop :=
+  let '(g, a, c) := f in group_ok g /\ alt_ok a /\ concat_ok c.
+
+(* everything but the depth of the option stack *)
+Record mbody (st : mst) : Prop := mkMB {
+  mb_group : group_ok (ms_group st);
+  mb_alt : alt_ok (ms_alt st);
+  mb_concat : concat_ok (ms_concat st);
+  mb_stack : Forall frame_ok (ms_stack st);
+  mb_unit : match ms_unit st with Some u => good u | None => True end }.
+
+(* pushOptions / popOptions run in step with pushGroup / popGroup *)
+Definition minv (st : mst) : Prop := mbody st /\ length (ms_os st) = length (ms_stack st).
+
+Local Notation add_child := (add_child cat_in).
+Local Notation ACO := (add_child_ok is_word_char to_lower simple_fold participates cat_in cat_name).
+
+Lemma add_child_pres parent child : kids_good parent -> good child ->
+  exists p', add_child parent child = Ok p' /\ kids_good p' /\ n_kids p' <> [] /\ n_t p' = n_t parent /\
+             length (n_kids p') = S (length (n_kids parent)).
+Proof.
+  intros K G. destruct (ACO parent child K G) as [p' [E [K' [NE [Ht [_ [_ L]]]]]]].
+  exists p'. repeat split; assumption.
+Qed.
+
+(* a finished group node is good *)
+Lemma group_done g : group_ok g -> n_kids g <> [] -> good g.
+Proof.
+  intros [K T] NE. destruct g as [t o ch m n str st kids]. cbn [n_kids n_t] in *. unfold kids_good in K. cbn [n_kids] in K.
+  apply good_eq. split; [|exact K]. unfold shape_ok. repeat split; intros; try assumption; exfalso; unfold group_t in T; tnum; lia.
+Qed.
+
+Lemma alt_good a : alt_ok a -> good a.
+Proof.
+  intros [K T]. destruct a as [t o ch m n str st kids]. cbn [n_kids n_t] in *. unfold kids_good in K. cbn [n_kids] in K.
+  apply good_eq. split; [|exact K]. unfold shape_ok. repeat split; intros; exfalso; tnum; lia.
+Qed.
+
+Lemma concat_rev_good c : concat_ok c -> good (reverse_left c).
+Proof.
+  intros [K T]. apply (reverse_left_good is_word_char to_lower simple_fold participates cat_in cat_name); assumption.
+Qed.
+
+Local Notation add_concatenate := (add_concatenate cat_in).
+Local Notation add_concatenate3 := (add_concatenate3 cat_in).
+Local Notation add_ones := (add_ones simple_fold cat_in).
+Local Notation add_to_concatenate := (add_to_concatenate simple_fold participates cat_in).
+Local Notation add_alternate := (add_alternate cat_in).
+Local Notation add_group := (add_group cat_in).
+Local Notation pop_group := (pop_group cat_in).
+Local Notation add_run := (add_run simple_fold participates cat_in).
+Local Notation scan_quantifier := (scan_quantifier cat_in).
+Local Notation after_unit := (after_unit cat_in).
+Local Notation round_open := (round_open is_word_char cat_in).
+Local Notation round_close := (round_close cat_in).
+Local Notation simple_unit := (simple_unit simple_fold cat_in).
+Local Notation scan_round := (scan_round is_word_char to_lower simple_fold participates cat_in cat_name).
+Local Notation scan_loop_full := (scan_loop_full is_word_char to_lower simple_fold participates cat_in cat_name).
+Local Notation scan_regex := (scan_regex is_word_char to_lower simple_fold participates cat_in cat_name).
+
+(* the fields a step leaves alone *)
+Definition same_nest (st st' : mst) : Prop :=
+  ms_stack st' = ms_stack st /\ ms_os st' = ms_os st.
+
+Lemma add_concatenate_ok st : mbody st -> ms_unit st <> None ->
+  exists st', add_concatenate st = POk st' /\ mbody st' /\ ms_unit st' = None /\ same_nest st st'.
+Proof.
+  intros [Bg Ba Bc Bs Bu] Hu. unfold Parser.add_concatenate. destruct (ms_unit st) as [u|] eqn:Eu; [|congruence].
+  destruct Bc as [Kc Tc].
+  destruct (add_child_pres (ms_concat st) u Kc Bu) as [c' [E [K' [_ [T' _]]]]]. rewrite E. cbn [of_res pbind].
+  eexists. split; [reflexivity|]. split; [|split; [reflexivity | split; reflexivity]].
+  constructor; cbn; auto. split; [exact K' | congruence].
+Qed.
+
+Lemma add_concatenate3_ok st lazy mn mx : mbody st -> ms_unit st <> None -> 0 <= mn ->
+  exists st', add_concatenate3 st lazy mn mx = POk st' /\ mbody st' /\ ms_unit st' = None /\ same_nest st st'.
+Proof.
+  intros [Bg Ba Bc Bs Bu] Hu Hmn. unfold Parser.add_concatenate3. destruct (ms_unit st) as [u|] eqn:Eu; [|congruence].
+  destruct (make_quantifier_ok is_word_char to_lower simple_fold participates cat_in cat_name u lazy mn mx Bu Hmn) as [q [Eq Gq]].
+  rewrite Eq. cbn [of_res pbind].
+  destruct Bc as [Kc Tc].
+  destruct (add_child_pres (ms_concat st) q Kc Gq) as [c' [E [K' [_ [T' _]]]]]. rewrite E. cbn [of_res pbind].
+  eexists. split; [reflexivity|]. split; [|split; [reflexivity | split; reflexivity]].
+  constructor; cbn; auto. split; [exact K' | congruence].
+Qed.
+
+Lemma add_ones_ok o s : forall c, concat_ok c ->
+  match add_ones o c s with POk c' => concat_ok c' | PO => True | _ => False end.
+Proof.
+  induction s as [|ch s IH]; intros c Hc; cbn [Parser.add_ones]; [exact Hc|].
+  pose proof (mk_node_ch_ok simple_fold cat_in T_One o ch ltac:(reflexivity) ltac:(tnum; lia) ltac:(reflexivity)) as M.
+  destruct (Parser.mk_node_ch simple_fold cat_in T_One o ch) as [x| | | |]; cbn [pbind]; try contradiction; auto.
+  destruct Hc as [Kc Tc].
+  destruct (add_child_pres c x Kc M) as [c' [E [K' [_ [T' _]]]]]. rewrite E. cbn [of_res pbind].
+  apply IH. split; [exact K' | congruence].
+Qed.
+
+Lemma add_to_concatenate_ok o c s : concat_ok c ->
+  match add_to_concatenate o c s with POk c' => concat_ok c' | PO => True | _ => False end.
+Proof.
+  intros Hc. unfold Parser.add_to_concatenate.
+  destruct s as [|ch [|ch2 s']]; [exact Hc | apply add_ones_ok; exact Hc |].
+  destruct (negb (useI o) || negb (existsb participates (ch :: ch2 :: s'))); [|apply add_ones_ok; exact Hc].
+  destruct Hc as [Kc Tc].
+  assert (G : good (mk_node_str T_Multi (clear_I o) (ch :: ch2 :: s'))).
+  { apply good_eq. split; [|constructor]. unfold shape_ok. repeat split; intros; try discriminate; exfalso; tnum; lia. }
+  destruct (add_child_pres c _ Kc G) as [c' [E [K' [_ [T' _]]]]]. rewrite E. cbn [of_res].
+  split; [exact K' | congruence].
+Qed.
+
+Lemma add_run_ok st run isq : mbody st -> ms_unit st = None ->
+  match add_run st run isq with
+  | POk st' => mbody st' /\ same_nest st st' /\ (ms_unit st' <> None -> run <> [] /\ isq = true) /\
+               (isq = true -> run <> [] -> ms_unit st' <> None)
+  | PO => True
+  | _ => False
+  end.
+Proof.
+  intros B Hu. unfold Parser.add_run. destruct run as [|r0 run'].
+  { split; [exact B|]. split; [split; reflexivity|]. split; [intros H; congruence | intros _ H; congruence]. }
+  set (run := r0 :: run') in *.
+  pose proof (add_to_concatenate_ok (ms_o st) (ms_concat st) (if isq then removelast run else run) (mb_concat st B)) as A.
+  destruct (add_to_concatenate (ms_o st) (ms_concat st) (if isq then removelast run else run)) as [c| | | |];
+    cbn [pbind]; try contradiction; auto.
+  destruct B as [Bg Ba Bc Bs Bu].
+  destruct isq.
+  - pose proof (mk_node_ch_ok simple_fold cat_in T_One (ms_o st) (last run 0) ltac:(reflexivity) ltac:(tnum; lia) ltac:(reflexivity)) as M.
+    destruct (Parser.mk_node_ch simple_fold cat_in T_One (ms_o st) (last run 0)) as [u| | | |]; cbn [pbind]; try contradiction; auto.
+    split; [constructor; cbn; auto|]. split; [split; reflexivity|]. split; intros; [split; [discriminate | reflexivity] | cbn; discriminate].
+  - split; [constructor; cbn; auto; rewrite Hu; exact I|]. split; [split; reflexivity|].
+    split; [cbn; intros H; congruence | discriminate].
+Qed.
+
+Lemma add_alternate_ok st : mbody st ->
+  exists st', add_alternate st = POk st' /\ mbody st' /\ same_nest st st' /\ ms_unit st' = ms_unit st.
+Proof.
+  intros [Bg Ba Bc Bs Bu]. unfold Parser.add_alternate.
+  pose proof (concat_rev_good _ Bc) as Gc.
+  assert (Fc : concat_ok (mk_node T_Concatenate (ms_o st))) by (split; [constructor | reflexivity]).
+  destruct (is_cond_t (n_t (ms_group st))).
+  - destruct Bg as [Kg Tg].
+    destruct (add_child_pres (ms_group st) _ Kg Gc) as [g' [E [K' [_ [T' _]]]]]. rewrite E. cbn [of_res pbind].
+    eexists. split; [reflexivity|]. split; [|split; [split; reflexivity | reflexivity]].
+    constructor; cbn; auto. split; [exact K' | congruence].
+  - destruct Ba as [Ka Ta].
+    destruct (add_child_pres (ms_alt st) _ Ka Gc) as [a' [E [K' [_ [T' _]]]]]. rewrite E. cbn [of_res pbind].
+    eexists. split; [reflexivity|]. split; [|split; [split; reflexivity | reflexivity]].
+    constructor; cbn; auto. split; [exact K' | congruence].
+Qed.
+
+Lemma add_group_ok st : mbody st ->
+  match add_group st with
+  | POk st' => mbody st' /\ same_nest st st' /\ ms_unit st' <> None
+  | PE _ _ => True
+  | _ => False
+  end.
+Proof.
+  intros [Bg Ba Bc Bs Bu]. unfold Parser.add_group.
+  pose proof (concat_rev_good _ Bc) as Gc.
+  destruct (is_cond_t (n_t (ms_group st))).
+  - destruct Bg as [Kg Tg].
+    destruct (add_child_pres (ms_group st) _ Kg Gc) as [g' [E [K' [NE [T' _]]]]]. rewrite E. cbn [of_res pbind].
+    match goal with |- context [if ?b then _ else _] => destruct b end; [exact I|].
+    assert (Gg : group_ok g') by (split; [exact K' | congruence]).
+    split; [|split; [split; reflexivity | cbn; discriminate]].
+    constructor; cbn; auto. apply group_done; assumption.
+  - destruct Ba as [Ka Ta].
+    destruct (add_child_pres (ms_alt st) _ Ka Gc) as [a' [E [K' [_ [T' _]]]]]. rewrite E. cbn [of_res pbind].
+    assert (Aa : alt_ok a') by (split; [exact K' | congruence]).
+    destruct Bg as [Kg Tg].
+    destruct (add_child_pres (ms_group st) a' Kg (alt_good _ Aa)) as [g' [E2 [K2 [NE2 [T2 _]]]]]. rewrite E2. cbn [of_res pbind].
+    assert (Gg : group_ok g') by (split; [exact K2 | congruence]).
+    split; [|split; [split; reflexivity | cbn; discriminate]].
+    constructor; cbn; auto. apply group_done; assumption.
+Qed.
+
+Lemma pop_group_ok st : mbody st -> ms_stack st <> [] ->
+  match pop_group st with
+  | POk st' => mbody st' /\ ms_os st' = ms_os st /\ S (length (ms_stack st')) = length (ms_stack st)
+  | PE _ _ => True
+  | _ => False
+  end.
+Proof.
+  intros [Bg Ba Bc Bs Bu] NE. unfold Parser.pop_group.
+  destruct (ms_stack st) as [|[[g a] c] r] eqn:Es; [congruence|].
+  inversion Bs as [|? ? Hf Fr]; subst. unfold frame_ok in Hf. destruct Hf as [Fg [Fa Fc]].
+  destruct ((n_t g =? T_ExprCond) && match n_kids g with [] => true | _ => false end).
+  - destruct (ms_unit st) as [u|]; [|exact I].
+    destruct Fg as [Kg Tg].
+    destruct (add_child_pres g u Kg Bu) as [g' [E [K' [_ [T' _]]]]]. rewrite E. cbn [of_res pbind].
+    split; [|split; [reflexivity | cbn; reflexivity]].
+    constructor; cbn; auto. split; [exact K' | congruence].
+  - split; [|split; [reflexivity | cbn; reflexivity]].
+    constructor; cbn; auto.
+Qed.
+
+(* ---------------------------------------------------------------- quantifiers *)
+Lemma brace_counts_ok p1 :
+  match brace_counts p1 with
+  | POk (Some (mn, _, q)) => 0 <= mn /\ (length q <= length p1)%nat
+  | POk None => True
+  | PE _ _ | PO => True
+  | _ => False
+  end.
+Proof.
+  unfold brace_counts.
+  pose proof (decimal_adv p1) as D. pose proof (decimal_nonneg p1) as NN.
+  destruct (decimal p1) as [[mn q]|e q0| | |]; cbn [pbind padv] in *; [ | exact I | exact I | contradiction | contradiction].
+  specialize (NN mn q eq_refl).
+  match goal with |- match pbind ?a _ with _ => _ end => assert (A : padv a (length p1)) end.
+  { destruct ((length q <? length p1)%nat && hd_is q 44); [|cbn; exact D].
+    pose proof (tl_len q) as T.
+    destruct (is_nil (tl q) || hd_is (tl q) 125); [cbn; lia|].
+    eapply padv_weaken; [apply decimal_adv | lia]. }
+  match goal with |- match pbind ?a _ with _ => _ end => destruct a as [[mx q2]|e q2| | |] end;
+    cbn [pbind padv] in *; [ | exact I | exact I | contradiction | contradiction].
+  pose proof (tl_len q2) as T2.
+  destruct ((length q =? length p1)%nat || negb (hd_is q2 125)); [exact I|]. split; [exact NN | lia].
+Qed.
+
+Lemma scan_quantifier_ok st p : mbody st -> ms_unit st <> None -> p <> [] ->
+  match scan_quantifier st p with
+  | POk (st', q) => mbody st' /\ ms_unit st' = None /\ same_nest st st' /\ (length q <= length p)%nat
+  | PE _ _ | PO => True
+  | _ => False
+  end.
+Proof.
+  intros B Hu Hp. unfold Parser.scan_quantifier. destruct p as [|ch p1]; [congruence|].
+  destruct (ms_unit st) as [u|] eqn:Eu; [|congruence].
+  match goal with |- match pbind ?a _ with _ => _ end =>
+    assert (A : match a with POk (Some (mn, _, q)) => 0 <= mn /\ (length q <= length p1)%nat
+                             | POk None => True | PE _ _ | PO => True | _ => False end) end.
+  { destruct (ch =? 42); [split; [lia | lia]|].
+    destruct (ch =? 63); [split; [lia | lia]|].
+    destruct (ch =? 43); [split; [lia | lia]|].
+    destruct (ch =? 123); [apply brace_counts_ok | exact I]. }
+  match goal with |- match pbind ?a _ with _ => _ end => destruct a as [[[[mn mx] q]|]|e q0| | |] end;
+    cbn [pbind] in *; try contradiction; try exact I.
+  - destruct A as [Hmn Hq].
+    pose proof (scan_blank_full_adv (ms_o st) q) as Bq.
+    destruct (scan_blank_full (ms_o st) q) as [q1|e q1| | |]; cbn [pbind padv0] in *; try contradiction; try exact I.
+    pose proof (tl_len q1) as T1.
+    destruct (if hd_is q1 63 then (true, tl q1) else (false, q1)) as [lazy q2] eqn:El.
+    assert (L2 : (length q2 <= length q1)%nat) by (destruct (hd_is q1 63); inversion El; subst; lia).
+    destruct (mx <? mn); [exact I|].
+    destruct (add_concatenate3_ok st lazy mn mx B ltac:(congruence) Hmn) as [st' [E [B' [U' N']]]].
+    rewrite E. cbn [pbind]. csplit; try assumption; try apply N'. cbn [length]. lia.
+  - destruct (add_concatenate_ok st B ltac:(congruence)) as [st' [E [B' [U' N']]]].
+    rewrite E. cbn [pbind]. csplit; try assumption; try apply N'. lia.
+Qed.
+
+Lemma is_true_quantifier_nonempty p : is_true_quantifier p = true -> p <> [].
+Proof. destruct p; [discriminate | discriminate]. Qed.
+
+Lemma after_unit_ok st p : mbody st -> ms_unit st <> None ->
+  match after_unit st p with
+  | POk (st', q, _) => mbody st' /\ ms_unit st' = None /\ same_nest st st' /\ (length q <= length p)%nat
+  | PE _ _ | PO => True
+  | _ => False
+  end.
+Proof.
+  intros B Hu. unfold Parser.after_unit.
+  pose proof (scan_blank_full_adv (ms_o st) p) as Bp.
+  destruct (scan_blank_full (ms_o st) p) as [p1|e p1| | |]; cbn [pbind padv0] in *; try contradiction; try exact I.
+  destruct (is_nil p1 || negb (is_true_quantifier p1)) eqn:E.
+  - destruct (add_concatenate_ok st B Hu) as [st' [E' [B' [U' N']]]]. rewrite E'. cbn [pbind].
+    csplit; try assumption; apply N'.
+  - assert (Q : is_true_quantifier p1 = true) by (destruct (is_nil p1); [discriminate|]; destruct (is_true_quantifier p1); [reflexivity | discriminate]).
+    pose proof (scan_quantifier_ok st p1 B Hu (is_true_quantifier_nonempty _ Q)) as S.
+    destruct (scan_quantifier st p1) as [[st' q]|e q| | |]; cbn [pbind]; try contradiction; try exact I.
+    destruct S as [S1 [S2 [S3 S4]]]. csplit; try assumption; try apply S3. lia.
+Qed.
+
+(* ---------------------------------------------------------------- the cases of a round *)
+(* what a round hands on: the invariant, no pending unit, a strictly shorter pattern *)
+Definition round_res (r : pr (mst * option (list Z * bool))) (n : nat) : Prop :=
+  match r with
+  | POk (st', None) => minv st'
+  | POk (st', Some (q, _)) => minv st' /\ ms_unit st' = None /\ (length q <= n)%nat
+  | PE _ _ | PO => True
+  | _ => False
+  end.
+
+Lemma minv_same st st' : minv st -> mbody st' -> same_nest st st' -> minv st'.
+Proof. intros [_ D] B [S1 S2]. split; [exact B | rewrite S1, S2; exact D]. Qed.
+
+Lemma mbody_set_unit st x : mbody st -> good x -> mbody (set_unit st (Some x)).
+Proof. intros [Bg Ba Bc Bs Bu] G. constructor; cbn; auto. Qed.
+
+(* a unit followed by its quantifier *)
+Lemma unit_then_ok st1 x q n : minv st1 -> good x -> (length q <= n)%nat ->
+  round_res (pdo r <- after_unit (set_unit st1 (Some x)) q ; let '(st', q', wq) := r in POk (st', Some (q', wq))) n.
+Proof.
+  intros Iv G Hq. pose proof (after_unit_ok (set_unit st1 (Some x)) q (mbody_set_unit _ _ (proj1 Iv) G) ltac:(cbn; discriminate)) as A.
+  destruct (after_unit (set_unit st1 (Some x)) q) as [[[st' q'] wq]|e q0| | |]; cbn [pbind round_res]; try contradiction; try exact I; auto.
+  destruct A as [A1 [A2 [A3 A4]]]. split; [|split; [exact A2 | lia]].
+  eapply minv_same; [exact Iv | exact A1 |]. destruct A3 as [S1 S2]. split; [exact S1 | exact S2].
+Qed.
+
+Lemma round_open_ok tb mco st1 p3 : minv st1 -> ms_unit st1 = None ->
+  round_res (round_open tb mco st1 p3) (length p3).
+Proof.
+  intros Iv Hu. unfold Parser.round_open.
+  destruct (useRE2 (ms_o st1) && hd_is p3 63 && nth_is 1 p3 80 && nth_is 2 p3 61).
+  { pose proof (python_backref_adv tb (ms_o st1) (skipn 3 p3)) as P. pose proof (skipn_le 3 p3) as SK.
+    destruct (python_backref tb (ms_o st1) (skipn 3 p3)) as [[x q]|e q| | |]; cbn [pbind round_res]; try contradiction; try exact I; auto.
+    destruct P as [P1 P2]. apply unit_then_ok; [exact Iv | exact P2 | lia]. }
+  pose proof (group_open_gadv tb mco (n_t (ms_group st1)) (mkGV (ms_o st1) (ms_ign st1) (ms_autocap st1)) p3) as G.
+  destruct (group_open tb mco (n_t (ms_group st1)) (mkGV (ms_o st1) (ms_ign st1) (ms_autocap st1)) p3) as [[[g v] q]|e q| | |];
+    cbn [pbind round_res gadv] in *; try contradiction; try exact I; auto.
+  destruct G as [G1 G2]. destruct Iv as [[Bg Ba Bc Bs Bu] D].
+  destruct g as [gn|]; cbn [round_res].
+  - split; [|split; [cbn; exact Hu | exact G1]].
+    destruct G2 as [Gt Gk].
+    split; [|cbn; lia].
+    constructor; cbn.
+    + split; [unfold kids_good; rewrite Gk; constructor | exact Gt].
+    + split; [constructor | reflexivity].
+    + split; [constructor | reflexivity].
+    + constructor; [|exact Bs]. unfold frame_ok. auto.
+    + rewrite Hu. exact I.
+  - split; [|split; [cbn; exact Hu | exact G1]].
+    split; [constructor; cbn; auto | cbn; exact D].
+Qed.
+
+Lemma round_close_ok st1 p3 : minv st1 ->
+  round_res (round_close st1 p3) (length p3).
+Proof.
+  intros Iv. unfold Parser.round_close. destruct (ms_stack st1) as [|f r] eqn:Es; [exact I|].
+  destruct Iv as [B D].
+  pose proof (add_group_ok st1 B) as A.
+  destruct (add_group st1) as [st2|e q| | |]; cbn [pbind round_res]; try contradiction; try exact I; auto.
+  destruct A as [B2 [[S1 S2] U2]].
+  pose proof (pop_group_ok st2 B2 ltac:(rewrite S1, Es; discriminate)) as P.
+  destruct (pop_group st2) as [st3|e q| | |]; cbn [pbind round_res]; try contradiction; try exact I; auto.
+  destruct P as [B3 [O3 L3]].
+  assert (Hos : length (ms_os st3) = S (length (ms_stack st3))) by (rewrite O3, S2, D, <- S1, <- L3; reflexivity).
+  unfold pop_options. destruct (ms_os st3) as [|o r3]; [cbn in Hos; lia|].
+  cbn [pbind].
+  set (st4 := mkMS (ms_stack st3) (ms_group st3) (ms_alt st3) (ms_concat st3) (ms_unit st3) o r3 (ms_ign st3) (ms_autocap st3)).
+  assert (I4 : minv st4).
+  { split.
+    - destruct B3 as [Bg Ba Bc Bs Bu]. constructor; cbn; auto.
+    - cbn in *. lia. }
+  destruct (ms_unit st4) as [u|] eqn:Eu.
+  - pose proof (after_unit_ok st4 p3 (proj1 I4) ltac:(congruence)) as A.
+    destruct (after_unit st4 p3) as [[[st' q'] wq]|e q0| | |]; cbn [pbind round_res]; try contradiction; try exact I; auto.
+    destruct A as [A1 [A2 [A3 A4]]]. split; [|split; [exact A2 | exact A4]].
+    eapply minv_same; [exact I4 | exact A1 | exact A3].
+  - cbn [round_res]. split; [exact I4 | split; [exact Eu | lia]].
+Qed.
+
+Lemma simple_unit_ok o ch :
+  match simple_unit o ch with POk y => good y | PO => True | _ => False end.
+Proof.
+  unfold Parser.simple_unit.
+  destruct (ch =? 94); [apply good_mk_node; destruct (useM o); try reflexivity; tnum; lia|].
+  destruct (ch =? 36).
+  { apply good_mk_node; destruct (useM o); try reflexivity; try (tnum; lia);
+      destruct (useRE2 o || useE o); try reflexivity; tnum; lia. }
+  destruct (useS o); [apply mk_node_set_ok|].
+  destruct (useE o); [apply mk_node_set_ok|].
+  apply mk_node_ch_ok; try reflexivity. tnum. lia.
 Qed.
 
 End Main.
